@@ -559,8 +559,13 @@ func c10CoordRunTrace(t *testing.T, r *Run, lines []string) {
 	t0 := time.Now()
 	c := newC10CoordH(t)
 	h := c.h
-	// the generic per-op digest (C12) and export/import (C18) hooks follow single-application fixtures only
-	lastFix = nil
+	// C12's per-op digest of every store follows the hub application (keys, memos and block times are fixed: two
+	// OS processes must produce byte-identical hub state through real blocks too); the generic export/import
+	// hook of C18 swaps the application behind a fixture, which a coordinator chain cannot follow
+	lastFix = h.e.f
+	if c18Mode != "" {
+		lastFix = nil
+	}
 	fixEpoch++
 	mon := &c10Mon{h: h, r: r}
 	hash := sha256.New()
@@ -767,5 +772,36 @@ func TestC10CoordDump(t *testing.T) {
 		if err := os.WriteFile(p, []byte(sb.String()), 0o644); err != nil {
 			t.Fatal(err)
 		}
+	}
+}
+
+// TestC10CoordAnteWrite (standalone probe, outside the line protocol and outside ./check): on the two-chain
+// fixture, a top-level MsgChannelOpenAck whose proof does not verify, for a channel the hub only has in INIT
+// (MsgChannelOpenInit is permissionless, the rollapp never saw the channel).  The transaction fails in ibc core;
+// what the ante hook wrote before is reported.  (Known finding C09/first_channel_only/unopened-channel-became-canonical.)
+func TestC10CoordAnteWrite(t *testing.T) {
+	if os.Getenv("C10_COORD_PROBE") == "" {
+		t.Skip("set C10_COORD_PROBE=1")
+	}
+	c := newC10CoordH(t)
+	c.h.nra = 1
+	for _, op := range []string{"create r0 ck=1 pf=1 nb=1 nd=11 ne=18 sup=30 accs=1:10;2:20 sealed=0", "seq r0", "canon r0"} {
+		if res, _ := c.exec(op); res != "ok" {
+			t.Fatalf("%s: %s", op, res)
+		}
+	}
+	p := c.chanPath(c.base[0])
+	c.must("hub ChanOpenInit", p.EndpointA.ChanOpenInit())
+	c.must("hub UpdateClient", p.EndpointA.UpdateClient())
+	// the rollapp chain has no such channel: the proof (of absence) cannot verify a TRYOPEN channel end
+	proof, height := p.EndpointB.QueryProof(host.ChannelKey(ibctesting.TransferPort, "channel-0"))
+	ack := channeltypes.NewMsgChannelOpenAck(ibctesting.TransferPort, p.EndpointA.ChannelID, "channel-0", transfertypes.Version, proof, height, c.hub.SenderAccount.GetAddress().String())
+	_, err := c.hub.SendMsgs(ack)
+	c.refresh()
+	ra := c.hubApp().RollappKeeper.MustGetRollapp(c.h.e.f.Ctx, ibcRollappID(0))
+	t.Logf("tx error: %v", err)
+	t.Logf("hub channel %s state %s, Rollapp.ChannelId = %q", p.EndpointA.ChannelID, c.hubChanState(p), ra.ChannelId)
+	if err == nil {
+		t.Fatal("the MsgChannelOpenAck with a proof that cannot verify was accepted")
 	}
 }
